@@ -216,7 +216,10 @@ func (en *Engine) external(st *State, fr *Frame, x *ssa.Call, name string, calle
 	// acquiring a lock is where other goroutines' writes become visible: whatever the object that owns the mutex held
 	// before may have been replaced meanwhile, so later loads are new values (a re-check under the lock is not decided by
 	// what was read before it)
-	if (name == "(*sync.RWMutex).Lock" || name == "(*sync.RWMutex).RLock" || name == "(*sync.Mutex).Lock") && len(args) == 1 {
+	// ... and releasing it is where this goroutine's exclusive view ends: what is read from the owner afterwards (through a
+	// pointer to a record that was filled under the lock, say) is whatever the last writer left there
+	if (name == "(*sync.RWMutex).Lock" || name == "(*sync.RWMutex).RLock" || name == "(*sync.Mutex).Lock" ||
+		name == "(*sync.RWMutex).Unlock" || name == "(*sync.RWMutex).RUnlock" || name == "(*sync.Mutex).Unlock") && len(args) == 1 {
 		if fa, ok := args[0].(*FieldAddrV); ok {
 			en.havoc(st, fa.X)
 		}
